@@ -1,6 +1,6 @@
 (* C42 — property theorems only.  Each is closed by `exact <lemma>` and followed by Print Assumptions. *)
 From Coq Require Import List NArith Bool Arith.
-From Verif.C42 Require Import Model Spec Proofs ProofsApply ProofsFinal ProofsIds ProofsSpec ProofsPin ProofsMaglev ProofsSched ProofsOracle ModelMg ProofsMg ProofsProj ProofsThree ProofsSched3 ProofsWrap ModelWrap ProofsWrap32 Witness.
+From Verif.C42 Require Import Model Spec Proofs ProofsApply ProofsFinal ProofsIds ProofsSpec ProofsPin ProofsMaglev ProofsSched ProofsOracle ModelMg ProofsMg ProofsProj ProofsThree ProofsSched3 ProofsWrap ModelWrap ProofsWrap32 ProofsOracle3 Witness.
 Import ListNotations.
 Open Scope N_scope.
 
@@ -374,3 +374,14 @@ Theorem c42_final_exact_uint32_wrap_refuted :
     /\ state_wf [3232235521] wr_st1 && final_exactb [3232235521] wr_st1 (fst d') (snd d') = false.
 Proof. exact wrap_refuted. Qed.
 Print Assumptions c42_final_exact_uint32_wrap_refuted.
+
+(* THE THREE-MAP ORACLE ACCEPTS EVERY RUN OF THE THREE-MAP MODEL (repaired order): replay3_ok with the maglev part on -
+   consistent and mg_consistent after each single write to any of the three maps - is true of every schedule
+   exec_apply3 accepts, from any good state (consistent, maglev-consistent, no duplicate keys, counts below
+   COUNT_LIMIT; e.g. empty maps), and the Apply leads to a good state again. *)
+Theorem c42_model_meets_replay_three_maps : forall cfg lut lutf sy d st v fF fB tr sy' d' err,
+  lut <= COUNT_LIMIT -> dp3_good lut d -> st_bounded st ->
+  exec_apply3 cfg true lut lutf sy d st v fF fB tr = Some (sy', d', err) ->
+  replay3_ok true lut d tr = true /\ dp3_good lut d'.
+Proof. exact model3_meets_replay. Qed.
+Print Assumptions c42_model_meets_replay_three_maps.
